@@ -638,6 +638,10 @@ UNARY = {
     'to_scalar0': lambda Pm, x: x.to_scalar(0), 'cumsum_like': lambda Pm, x: x + x.sum(), 'copy': lambda Pm, x: x.copy(),
     'as_index_m': lambda Pm, x: x.as_index(masked=0) if isinstance(x, Pm.Scalar) else x.as_index(masked=0),
     'rehide': _rehide,
+    # a rotation about an undefined (zero) pole by the angles x: masked wherever the angle is not an unmasked zero
+    # (seeded change C03-L: one hidden zero angle switched the replacement of every zero pole on)
+    'spin_zero_pole': lambda Pm, x: Pm.Vector3(np.tile([1., 2., 3.], tuple(x.shape) + (1,))).spin(
+        Pm.Vector3(np.zeros(tuple(x.shape) + (3,))), x),
     'as_builtin': lambda Pm, x: x.as_builtin(), 'hash_eq': lambda Pm, x: x == x, 'float0': lambda Pm, x: float(x[0]),
 }
 BINARY = {
@@ -846,6 +850,9 @@ def depth1_programs(unary, binary, nleaves):
 def rehide_programs():
     n = len(LEAVES)
     out = []
+    for i in range(n):
+        out.append(['spin_zero_pole', ['leaf', i]])
+        out.append(['spin_zero_pole', ['neg', ['leaf', i]]])
     # in-place operators applied after cached queries, bare and under a reduction: always complete (the detection of
     # seeded change C03-A had depended on which of these the quick sample happened to contain)
     for b in sorted(k for k in BINARY if k.endswith('_q')):
